@@ -1,7 +1,7 @@
 import OpenHTF.Model.AdbConn
 import OpenHTF.Driver.Util
 /- C15 driver.
-   `C15 H <nkeys> <n> reply.. # sent.. R:<result>`     reply := `C:<maxdata>:<ok>` | `T:<tok>` | `A` | `N`
+   `C15 H <nkeys> <exp|-> <n> reply.. # sent.. R:<result>`   (exp: the handshake time-out expires while the exp-th message is read)     reply := `C:<maxdata>:<ok>` | `T:<tok>` | `A` | `N`
    `C15 I <limit> <last> <n> live.. # <id|unavailable>`
    `C15 S <limit> <last> <nops> op.. <ndev> dmsg.. # res.. | sent..`   op := `O` | `X:<l>` | `R:<l>` ; dmsg := `K:r:l` | `W:r:l:d` | `Z:r:l` | `I` -/
 namespace OpenHTF.Driver.C15
@@ -54,10 +54,10 @@ def handshakeFailures (nkeys : Nat) (rs : List Reply) (real : Toks) : List Strin
 def handle (ts : Toks) : String :=
   let (inp, real) := splitAt "#" ts
   match inp with
-  | "H" :: nk :: rest =>
+  | "H" :: nk :: expT :: rest =>
     match nk.toNat?, listOf (pTok reply_) rest with
     | some nkeys, some (rs, []) =>
-      let out := connect nkeys rs
+      let out := connectE nkeys expT.toNat? rs
       let model := out.1.map showSent ++ [showConnResult out.2]
       let fails := handshakeFailures nkeys rs real
       reply (model == real) fails.isEmpty (if fails.isEmpty then (if model == real then "ok" else "model=" ++ " ".intercalate model) else ",".intercalate fails ++ " model=" ++ " ".intercalate model)
